@@ -616,6 +616,17 @@ pub fn replay_rate(a: &Args) -> i32 {
         let layer = RateLimitLayer::new(quota, RateWaitMode::ReturnError);
         let mut clones = [layer.layer(counting.clone()), layer.layer(counting.clone())];
         let mut fail = None;
+        // a limiter that has been in service for a while: thousands of other peers have each spent part
+        // of their own quota (their state is live for the next hour); nobody else's verdicts change
+        if bi % 25 == 3 {
+            for i in 0..a.u64("preload", 4_200) {
+                let mut id = [0xa5u8; 32];
+                id[..8].copy_from_slice(&(i.wrapping_mul(0x9e37_79b9_7f4a_7c15)).to_le_bytes());
+                id[24..].copy_from_slice(&i.to_be_bytes());
+                let req = Request::new(Bytes::new()).with_header("rid", (1_000_000 + i).to_string()).with_extension(PeerId(id));
+                let _ = rt.block_on(clones[(i % 2) as usize].call(req));
+            }
+        }
         for (si, step) in beh.as_array().unwrap().iter().enumerate() {
             let key = step["k"].as_u64().unwrap();
             let want = step["admit"].as_bool().unwrap();
